@@ -3,6 +3,7 @@ package midix
 import (
 	"fmt"
 	"log/slog"
+	"math"
 
 	"github.com/berquerant/crd/errorx"
 	"github.com/berquerant/crd/logx"
@@ -140,12 +141,32 @@ func NewTrack() *Track {
 	return &Track{}
 }
 
+// MaxTickDelta is the largest delta time a standard midi file can hold.
+const MaxTickDelta = 0x0FFFFFFF
+
+// addTicks adds delta times without wrapping around.
+func addTicks(a, b uint32) uint32 {
+	if s := uint64(a) + uint64(b); s < math.MaxUint32 {
+		return uint32(s)
+	}
+	return math.MaxUint32
+}
+
 func (t Track) Len() int                       { return len(t.ops) }
-func (t *Track) AddTickDelta(tickDelta uint32) { t.tickDelta += tickDelta }
+func (t *Track) AddTickDelta(tickDelta uint32) { t.tickDelta = addTicks(t.tickDelta, tickDelta) }
 func (t *Track) Add(op *TrackOp) {
-	op.TickDelta += t.tickDelta
+	op.TickDelta = addTicks(op.TickDelta, t.tickDelta)
 	t.ops = append(t.ops, op)
 	t.tickDelta = 0
+}
+
+func (t Track) validate() error {
+	for _, x := range t.ops {
+		if x.TickDelta > MaxTickDelta {
+			return errorx.Invalid("delta time %d is too long for a midi file", x.TickDelta)
+		}
+	}
+	return nil
 }
 
 func (t Track) Apply(tt *smf.Track) {
